@@ -146,7 +146,12 @@ def _cmp(ctx, mon, key, err, tol, what, wit):
 def _call(ctx, key, wit, fn, *a, **kw):
     """Call a repository function; an unexpected exception is a violation of its own mechanism."""
     try:
-        return True, fn(*a, **kw)
+        arrs = [(i, x, x.copy()) for i, x in enumerate(a) if isinstance(x, np.ndarray)]
+        out = fn(*a, **kw)
+        for i, x, x0 in arrs:
+            # a conversion returns a new description of the orbit; the array it was handed stays the caller's
+            ctx.check(x.tobytes() == x0.tobytes(), key + "-modified-its-input", f"{getattr(fn, '__name__', fn)} changed argument {i} in place", wit, mon="input_unchanged")
+        return True, out
     except Exception as ex:  # noqa: BLE001
         ctx.violation(key + "-raised", f"{getattr(fn, '__name__', fn)} raised {type(ex).__name__}: {str(ex)[:200]}", wit)
         return False, None
